@@ -5,7 +5,7 @@
    this file is the semantics.  Tied by tools/corr/sense.py.  No proofs here. *)
 From Coq Require Import String.
 From PS Require Import Base.Bytes Base.Result Model.Converter Model.Command Model.Enum Model.Exec.
-From PS Require Import Gen.Tables Gen.SenseTables Gen.Misc.
+From PS Require Import Model.SenseStep Gen.Tables Gen.SenseTables Gen.Misc.
 Open Scope string_scope.
 Open Scope N_scope.
 
@@ -41,14 +41,22 @@ Inductive descr :=
 | DUnknownFormat (rc : N)
 | DKnown (key_text : string) (key : N) (ascq_text : string) (ascq16 : N).
 
-Definition describe_ascq (a q : N) : result string :=
-  if in_range vendor_specific_sense_asc a then Ok "Vendor specific ASC"
-  else if in_range vendor_specific_sense_ascq q then Ok "Vendor specific ASCQ"
-  else match lookupN (a * 256 + q) sense_ascq_dict, sense_ascq_default with
-       | Some t, _ => Ok t
-       | None, Some d => Ok d
-       | None, None => Raise KeyError
-       end.
+(* the regenerated steps, in program order; falling off the end returns None, which "%s" would print as the text "None" *)
+Fixpoint describe_steps (steps : list ascq_step) (a q : N) : result string :=
+  match steps with
+  | [] => Ok "None"
+  | s :: r =>
+      match s with
+      | AInTable => match lookupN (a * 256 + q) sense_ascq_dict with Some t => Ok t | None => describe_steps r a q end
+      | AVendorAsc t => if in_range vendor_specific_sense_asc a then Ok t else describe_steps r a q
+      | AVendorAscq t => if in_range vendor_specific_sense_ascq q then Ok t else describe_steps r a q
+      | AGetDefault d => Ok (match lookupN (a * 256 + q) sense_ascq_dict with Some t => t | None => d end)
+      | AStrict => match lookupN (a * 256 + q) sense_ascq_dict with Some t => Ok t | None => Raise KeyError end
+      | AText t => Ok t
+      | AUnknownStep => Raise (OtherExn "unknown step")
+      end
+  end.
+Definition describe_ascq (a q : N) : result string := describe_steps sense_ascq_steps a q.
 
 (* __str__ (without the optional print_data) as structured data instead of a formatted string *)
 Definition describe (c : cc) : result descr :=
